@@ -734,4 +734,34 @@ def handleAuthMsg (P : AuthPrims) (m : AuthMsg) : Out AuthResult :=
         | none => .err .badSig
         | some eph => .ok { remoteID := m.pub, token := token, remoteEph := eph, initNonce := m.nonce }
 
+/-! ## Discovery endpoint proof (bonding): `findnode.handle` serves only nodes with a bond, and only a pong that
+matches one of OUR pings (`ReplyTok` = hash of that ping, checked by the pending-reply callback of `udp.ping`) creates
+one (`Table.ping`: `updateBondTime` after `tab.net.ping` returned nil). Expiry of bonds (24 h) is not modelled. -/
+
+inductive DEv where
+  | pingSent (id tok : Bytes)        -- we pinged `id`; `tok` is the hash of our ping packet
+  | pongRecv (id tok : Bytes)        -- a pong signed by `id` carrying ReplyTok `tok` arrived
+  | pingTimeout (id : Bytes)         -- respTimeout elapsed for our pings to `id`
+  | pingRecv (id : Bytes)            -- a ping signed by `id` arrived (answered with a pong; proves nothing about `id`'s address)
+  | findnode (id : Bytes)            -- a findnode signed by `id` arrived
+  deriving Repr, DecidableEq
+
+structure BondSt where
+  pending : List (Bytes × Bytes) := []
+  bonded : List Bytes := []
+  deriving Repr, DecidableEq
+
+def bondStep (s : BondSt) : DEv → BondSt
+  | .pingSent id tok => { s with pending := (id, tok) :: s.pending }
+  | .pongRecv id tok =>
+    if s.pending.contains (id, tok) then { pending := s.pending.filter (fun p => p != (id, tok)), bonded := id :: s.bonded } else s
+  | .pingTimeout id => { s with pending := s.pending.filter (fun p => p.1 != id) }
+  | .pingRecv _ => s
+  | .findnode _ => s
+
+def bondRun (s : BondSt) (evs : List DEv) : BondSt := evs.foldl bondStep s
+
+/-- `findnode.handle`: answered with neighbors iff `db.hasBond(fromID)`; otherwise `errUnknownNode`. -/
+def findnodeServed (s : BondSt) (id : Bytes) : Bool := s.bonded.contains id
+
 end Aqv.Net
